@@ -16,21 +16,15 @@ import (
 //
 //   * exact, field by field, including nil-vs-empty for slices and maps and nil-vs-present for
 //     pointers (transaction / receipt / state-diff hashes and the RPC encodings depend on them);
-//   * EXCEPT InvokeTransaction.ProofFacts, the one field declared `cbor:",omitempty"`: the codec
-//     drops an empty value by design, so nil and empty are the same stored value (the transaction
-//     hash only looks at len(ProofFacts) > 0). The exception is by NAME, not by tag: putting
-//     omitempty on another field is a change of what is stored and is reported (the blob header's
-//     two index lists are the other by-design case);
+//   * a field declared `cbor:",omitempty"` is compared with its NORMAL FORM: stored empty (nil or
+//     len 0) must read back as nil, anything else exactly. This is what the codec is proved to do
+//     (Props.struct_roundtrip_omitempty, omitempty_empty_slice_comes_back_nil); which fields are
+//     omitempty is pinned by the type-table tie (InvokeTransaction.ProofFacts and the two index
+//     lists of the blob header), so putting omitempty on another field is reported there. The
+//     property text asks for the nil-vs-empty distinctions "the hashes depend on": the transaction
+//     hash only looks at len(ProofFacts) > 0 and rpc/v10 turns nil into [] again on output;
 //   * bloom filters by (*BloomFilter).Equal, big integers by Cmp (internal slack is not content).
 // ---------------------------------------------------------------------------------------------
-
-// omitemptyByDesign: the fields whose empty value is dropped by the codec on purpose (the index
-// lists of the blob header are internal: no accessor exposes their nil-ness).
-var omitemptyByDesign = map[string]bool{
-	"InvokeTransaction.ProofFacts":          true,
-	"BlockTransactionsIndexes.Transactions": true,
-	"BlockTransactionsIndexes.Receipts":     true,
-}
 
 // Diff returns "" when stored and got are equal, otherwise the path and kind of the first difference.
 func Diff(stored, got any) string {
@@ -77,7 +71,12 @@ func diffValue(a, b reflect.Value, path string, omitempty bool) string {
 		}
 		return diffValue(a.Elem(), b.Elem(), path, false)
 	case reflect.Slice:
-		if omitempty && a.Len() == 0 && b.Len() == 0 {
+		if omitempty && a.Len() == 0 {
+			// normal form of an `omitempty` field (theorem struct_roundtrip_omitempty): an empty
+			// value is not written, so it reads back as the zero value — nil, exactly
+			if !b.IsNil() {
+				return fmt.Sprintf("%s: omitempty field stored empty (len 0) read back non-nil (len %d)", path, b.Len())
+			}
 			return ""
 		}
 		if a.IsNil() != b.IsNil() {
@@ -125,7 +124,7 @@ func diffValue(a, b reflect.Value, path string, omitempty bool) string {
 				// compared through their accessors by the caller
 				continue
 			}
-			om := omitemptyByDesign[a.Type().Name()+"."+f.Name]
+			om := strings.Contains(","+f.Tag.Get("cbor")+",", ",omitempty,")
 			if d := diffValue(a.Field(i), b.Field(i), path+"."+f.Name, om); d != "" {
 				return d
 			}
